@@ -299,15 +299,19 @@ func Run(r *ev.Run, tier string) (evals, nontrivial int64) {
 	}
 	// --- packet traffic: states of scripted relay histories on both chains (every prefix of the history)
 	{
-		s := relay.New(relay.Config{Chains: 2, MaxSends: 8})
-		ops := []string{"send A B erc20 3", "send B A native 1", "send A B erc20+callrevert 1", "upd A B", "upd B A", "upd A B", "upd B A", "recv A>B#1 g1", "recv B>A#1 g1", "recv A>B#2 g1",
-			"upd A B", "upd B A", "upd A B", "ack A>B#1 g1", "send A B native 1", "ack A>B#2 g1"}
+		// three chains, so that every chain holds commitments, receipts and acknowledgements on two paths
+		s := relay.New(relay.Config{Chains: 3, MaxSends: 12})
+		ops := []string{"send A B erc20 3", "send B A native 1", "send A B erc20+callrevert 1", "send C B erc20 1", "send A C erc20 1", "send C A native 1", "send B C native 1",
+			"upd A B", "upd B A", "upd C A", "upd A C", "upd B C", "upd C B", "upd A B", "upd B A", "upd C A", "upd A C", "upd B C", "upd C B",
+			"recv A>B#1 g1", "recv B>A#1 g1", "recv A>B#2 g1", "recv C>B#1 g1", "recv A>C#1 g1", "recv C>A#1 g1", "recv B>C#1 g1",
+			"upd A B", "upd B A", "upd C A", "upd A C", "upd B C", "upd C B", "upd A B", "upd A C", "upd C B",
+			"ack A>B#1 g1", "ack A>C#1 g1", "ack C>B#1 g1", "send A B native 1", "ack A>B#2 g1"}
 		for i, op := range ops {
 			s.Run(op)
-			if tier == "quick" && i%3 != 2 && i != len(ops)-1 {
+			if tier == "quick" && i%4 != 3 && i != len(ops)-1 {
 				continue
 			}
-			for _, n := range []string{relay.A, relay.B} {
+			for _, n := range []string{relay.A, relay.B, relay.C} {
 				c := s.World().Chains[n]
 				report(fmt.Sprintf("packets: chain %s after %d relay operations", n[len(n)-2:], i+1), RoundTrip(c, c.ReadCtx(), dst, fmt.Sprintf("packets/%s/after-%d-ops", n[len(n)-2:], i+1)), ops[:i+1])
 				nontrivial++
